@@ -18,6 +18,18 @@ CHECKS = {
          "classification is exact because all pool constraints are totally unimodular (grid search in TLC). Statuses of rank-deficient "
          "problems and of infeasible problems with a constants-only row are left unspecified (rounding dependent).",
     technique="TLA+ state machine, TLC exhaustive graph -> per-transition replay into cvxopt.modeling.op + TLC trace validation of recorded histories"),
+ "C10": dict(
+    category="fault_enumeration",
+    text="SolverContract.tla states the containment contract (a pending KKT failure ends in the documented ValueError during start-up, "
+         "in 'unknown' with strictly interior, self-consistent iterates later, never in another exception or in 'optimal'); the faithful "
+         "control models ConeLP/ConeQP/CPL.tla have one action per KKT factor/solve call and TLC checks the contract on them for every "
+         "position of a failing call. The binding enumerates, for planted instances, every index of every factor and solve call of the "
+         "fault-free run, injects ArithmeticError exactly there through the wrapped KKT factories, and TLC validates each recorded trace "
+         "against the contract; the fault classes of model and implementation are compared.",
+    design_ref="DESIGN.md section 4 C10, section 10",
+    note="Faults are injected as ArithmeticError raised by the KKT factor/solve routines (the documented failure signal). Consistency of the "
+         "'unknown' result is judged by harness/alpha.py (exact rational recomputation).",
+    technique="TLA+ contract + faithful control models checked by TLC; exhaustive fault-position injection into the real solvers; TLC trace validation"),
 }
 
 NOT_YET = "check not built yet in this round (design in DESIGN.md section 4); not claimed"
